@@ -298,6 +298,7 @@ func (w *world) routeCfg(r *Req, tid int) vhost.RouteConfig {
 	if w.c.Kind == 1 {
 		return vhost.RouteConfig{
 			Domain: dname(at(r.Par, 0)), Location: lname(at(r.Par, 1)), RouteByHTTPUser: sname("u", at(r.Par, 2)),
+			Username: sname("n", at(r.Par, 3)), Password: sname("p", at(r.Par, 4)),
 			CreateConnFn: func(string) (net.Conn, error) { return &lblConn{label: r.M}, nil },
 		}
 	}
@@ -395,7 +396,7 @@ func (w *world) finishJoin(tid int, t *thread, r *Req, jr joinRes) {
 	case 0:
 		t.res = []int{jr.real}
 	case 1:
-		t.res = r.Par
+		t.res = []int{at(r.Par, 0), at(r.Par, 1), at(r.Par, 2)}
 	default:
 		t.res = []int{at(r.Par, 0), at(r.Par, 1)}
 	}
@@ -540,6 +541,9 @@ func (w *world) stepConn(tid int, t *thread, r *Req, o *Obs) error {
 		cfg := w.rp.GetRouteConfig(dom, loc, usr)
 		if cfg == nil || cfg.Location != loc || cfg.RouteByHTTPUser != usr || cfg.ChooseEndpointFn == nil {
 			t.st = sCRefused
+			if w.liveMemberOn(r.R) {
+				o.LostLive = true // the route of a group with members is not in the route table
+			}
 			return nil
 		}
 		var c net.Conn
@@ -606,6 +610,9 @@ func (w *world) stepConn(tid int, t *thread, r *Req, o *Obs) error {
 				unwait()
 				cc.Close()
 				t.st = sCRefused
+				if w.liveMemberOn(r.R) {
+					o.LostLive = true // the muxer has no route for a group with members
+				}
 				return nil
 			}
 		}
